@@ -11,10 +11,32 @@ WORK = os.path.join(C.BUILD, "cli-work")
 CLI_DT = ["i16", "i32", "i64", "u16", "u32", "u64", "f32", "f64", "micros", "nanos"]
 CLI_NAME = {"micros": "timestampmicros", "nanos": "timestampnanos"}
 
+PQGEN_DIR = os.path.join(C.VERIF, "pqgen")
+PQGEN = os.path.join(CLI_TARGET, "release", "qco_pqgen")
+
 def build_cli():
     rc, out = C.sh(["cargo", "build", "--release", "-p", "q_compress_cli", "--offline"], cwd=C.REPO, timeout=3000,
                    env={"CARGO_TARGET_DIR": CLI_TARGET})
     return rc == 0, out
+
+def build_pqgen():
+    """the Parquet writer used to feed the CLI's Parquet input path: same arrow/parquet versions and features as the
+    CLI (lock file copied from /repo), same target directory, so the compiled dependencies are shared"""
+    try:
+        shutil.copy(os.path.join(C.REPO, "Cargo.lock"), os.path.join(PQGEN_DIR, "Cargo.lock"))
+    except Exception:
+        pass
+    rc, out = C.sh(["cargo", "build", "--release", "--offline"], cwd=PQGEN_DIR, timeout=3000, env={"CARGO_TARGET_DIR": CLI_TARGET})
+    return rc == 0 and os.path.exists(PQGEN), out
+
+def pq_value(dt, x):
+    """stdin line of qco_pqgen for the value pattern x"""
+    P, W, kind, pps = C.DTYPES[dt]
+    if kind == "float":
+        return "%x" % x
+    if kind == "uint":
+        return str(x)
+    return str(x - (1 << W) if x >> (W - 1) else x)
 
 def fmt_value(dt, x):
     """text of the value pattern x as the CSV cell"""
@@ -77,9 +99,9 @@ def run_cli(args, timeout=120):
     return p.returncode, p.stdout, p.stderr
 
 def run(ctx):
-    ctx.explanation = ("partial: theorems cover the CLI's own glue (re-chunking, --limit, inspect arithmetic) composed with C01; Arrow CSV/Parquet parsing, number/timestamp formatting and option handling are exercised by differential runs of the real binary only; Parquet input is not exercised; known finding: Arrow's CSV writer panics on pre-epoch fractional timestamps")
+    ctx.explanation = ("partial: theorems cover the CLI's own glue (re-chunking, --limit, inspect arithmetic) composed with C01; Arrow CSV/Parquet parsing, number/timestamp formatting and option handling are exercised by differential runs of the real binary only (every third case enters through a Parquet file written by /verif/pqgen with the CLI's own arrow/parquet versions); known finding: Arrow's CSV writer panics on pre-epoch fractional timestamps")
     rng = ctx.rng
-    ctx.rule = ("cli stream: CSV columns of i16/i32/i64/u16/u32/u64/f32/f64 and both 64-bit timestamp types, 1..3000 rows, through "
+    ctx.rule = ("cli stream: CSV and Parquet columns of i16/i32/i64/u16/u32/u64/f32/f64 and both 64-bit timestamp types, 1..3000 rows, through "
                 "/repo's qcompress binary (built from the working tree): compress with chunk sizes 1..>rows, levels, explicit and "
                 "automatic delta order, --disable-gcds; decompress [--limit k]; inspect. Decisive: stdout parsed numerically "
                 "equals the column (its first k values); inspect's data type, total n, chunk count and byte sizes equal what the "
@@ -90,6 +112,9 @@ def run(ctx):
     if not ok:
         ctx.tie_break("cli-build", out[-1500:])
         return
+    have_pq, pqout = build_pqgen()
+    if not have_pq:
+        ctx.notes.append("Parquet writer (pqgen) did not build; Parquet input not exercised in this run: " + pqout[-300:])
     shutil.rmtree(WORK, ignore_errors=True)
     os.makedirs(WORK, exist_ok=True)
     ncases = 120 if ctx.quick else 1200
@@ -103,19 +128,34 @@ def run(ctx):
         level = rng.choice([0, 3, 8, 12])
         order = rng.choice([None, None, 0, 1, 2, 5])
         nogcd = rng.chance(1, 3)
-        csvp = os.path.join(WORK, "c%d.csv" % ci)
-        with open(csvp, "w") as f:
-            f.write("x,a,y\n")
-            for i, x in enumerate(xs):
-                f.write("%d,%s,zz\n" % (i, fmt_value(dt, x)))
         qco = "c%d.qco" % ci
-        args = ["compress", "--csv", csvp, "--col-name", "a", "--dtype", CLI_NAME.get(dt, dt), "--chunk-size", str(cs), "--level", str(level), "--overwrite"]
+        use_pq = have_pq and ci % 3 == 2
+        if use_pq:
+            # Parquet input: the column goes in as binary values (no text layer on the way in), row groups cut anywhere
+            csvp = os.path.join(WORK, "c%d.parquet" % ci)
+            rg = rng.choice([1, 7, 100, 1000, max(1, n - 1), n, n + 1, 1 << 20])
+            pr = subprocess.run([PQGEN, csvp, dt, str(rg)], input="\n".join(pq_value(dt, x) for x in xs) + "\n", text=True,
+                                stdout=subprocess.PIPE, stderr=subprocess.STDOUT, timeout=120)
+            if pr.returncode != 0:
+                ctx.notes.append("pqgen failed: " + pr.stdout[-200:])
+                continue
+            ctx.count("input:parquet"); ctx.count("parquet-row-group:%s" % ("1" if rg == 1 else "<n" if rg < n else ">=n"))
+            args = ["compress", "--parquet", csvp] + (["--col-name", "a"] if rng.chance(1, 2) else ["--col-idx", "1"]) + \
+                   (["--dtype", CLI_NAME.get(dt, dt)] if rng.chance(1, 2) else []) + ["--chunk-size", str(cs), "--level", str(level), "--overwrite"]
+        else:
+            ctx.count("input:csv")
+            csvp = os.path.join(WORK, "c%d.csv" % ci)
+            with open(csvp, "w") as f:
+                f.write("x,a,y\n")
+                for i, x in enumerate(xs):
+                    f.write("%d,%s,zz\n" % (i, fmt_value(dt, x)))
+            args = ["compress", "--csv", csvp, "--col-name", "a", "--dtype", CLI_NAME.get(dt, dt), "--chunk-size", str(cs), "--level", str(level), "--overwrite"]
         if order is not None:
             args += ["--delta-order", str(order)]
         if nogcd:
             args += ["--disable-gcds"]
         args.append(qco)
-        desc = "qcompress " + " ".join(a if a != csvp else "<csv %s n=%d>" % (dt, n) for a in args)
+        desc = "qcompress " + " ".join(a if a != csvp else "<%s %s n=%d>" % ("parquet" if use_pq else "csv", dt, n) for a in args)
         nchunks = (n + cs - 1) // cs
         k = rng.choice([None, 0, 1, n - 1, n, n + 5, rng.below(n + 1)])
         tags = (["multi-chunk"] if nchunks > 1 else []) + (["limit"] if k is not None and k < n else [])
